@@ -302,6 +302,24 @@ fn run_model<K: TestKey>(p: &Params, case: u64, rep: &mut Report) {
         steps = 8;
         rep.count("histories_with_12MiB_blob", 1);
     }
+    // the "many keys" regime: 140-330 keys, so that range removals, snapshots and log records
+    // carry hundreds of entries (counts beyond one byte, records beyond the I/O buffer)
+    let wide = case % 53 == 52 && K::NAME != "u8";
+    let mut wide_prefix: Vec<Op<K>> = Vec::new();
+    if wide {
+        let n = rng.range(140, 330) as usize;
+        let all: Vec<K> = (0..n).map(|i| K::bulk(i, 7)).collect();
+        let c = cassadilia_verif::ops::Content::new(5, 9);
+        let d = cassadilia_verif::ops::Content::new(6, 10);
+        for (i, k) in all.iter().enumerate() {
+            wide_prefix.push(Op::Put { key: k.clone(), content: if i % 3 == 0 { d } else { c }, chunks: vec![] });
+        }
+        // probes and generator keys: a sample, so that the per-step read oracle stays cheap
+        g.keys = (0..8).map(|j| all[(j * n / 8 + j) % n].clone()).collect();
+        g.extra = vec![all[n / 2].clone(), all[n - 1].clone()];
+        steps = wide_prefix.len() + 14;
+        rep.count("histories_with_hundreds_of_keys", 1);
+    }
     let root = fsx::fresh_path("seq");
     let cfg = config(n_ops, sync, false, true, true);
     let mut history: Vec<Op<K>> = Vec::new();
@@ -347,9 +365,13 @@ fn run_model<K: TestKey>(p: &Params, case: u64, rep: &mut Report) {
                 });
             }
         }
-        let op = match forced {
-            Some(op) => op,
-            None => g.next_op(&mut rng, &mr.model),
+        let op = if step < wide_prefix.len() {
+            wide_prefix[step].clone()
+        } else {
+            match forced {
+                Some(op) => op,
+                None => g.next_op(&mut rng, &mr.model),
+            }
         };
         note_features(&mut feats, &op, &mr, sess.open_tx_count());
         history.push(op.clone());
